@@ -7,5 +7,7 @@ for s in "$@"; do
   for p in $(python3 -c "import json;print(' '.join(c['property_id'] for c in json.load(open('MANIFEST.json'))['checks']))"); do
     out=$(VERIF_SEED=$s ./check $p $tier 2>&1); rc=$?
     echo "seed=$s $p rc=$rc $(echo "$out" | grep -c '^VIOLATION') viol :: $(echo "$out" | tail -1 | cut -c1-160)"
+    # keep what was reported (a snapshot run loses its replay files with the snapshot)
+    if [ $rc -ne 0 ]; then echo "$out" | grep -e 'kind=' -e '^VIOLATION' | cut -c1-1500 | sed 's/^/    /'; fi
   done
 done
